@@ -55,7 +55,11 @@ there is ONE generous wall-clock verdict (like C13's idle bound): when the excha
 complete - one side got its connectionLost, each side received every byte the other had to send and
 both finished their writes - and the reactor provably kept iterating (>= 40 ticks of a 0.25 s
 ticker), a side whose connectionLost has still not been called 20 s later is reported as
-`connectionlost-never-called`.  Every other time-out stays inconclusive.
+`connectionlost-never-called`.  With the same bound and the same ticker evidence, a connection of kind
+a/b/c/e/f on which both sides are connected, nobody was told connectionLost, no side ever paused reading,
+one side has issued all its writes, the peer has not received all of them and nothing at all moved for
+20 s is reported as `written-bytes-never-delivered` (the byte stream is not delivered: e.g. a reactor that
+drops the writer registration when it reads the peer's half-close).  Every other time-out stays inconclusive.
 Guards: a connection that does not finish before the in-child watchdog, a failed connect, or a
 subprocess timeout are INCONCLUSIVE (no verdict depends on time).
 """
@@ -409,6 +413,8 @@ def scenario(reactor, inp):
             self.never_lost = None
             self.h_unordered = False
             self.complete_since = None
+            self.stall_since = None
+            self.stalled = None
             sf = protocol.ServerFactory()
             sf.buildProtocol = lambda addr: self.accept()
             self.port = reactor.listenTCP(0, sf, interface="127.0.0.1", backlog=5)
@@ -466,8 +472,30 @@ def scenario(reactor, inp):
                 self.never_lost = {"side": b.role, "waited_s": round(now - self.complete_since[0], 1), "reactor_ticks_meanwhile": ticks - self.complete_since[1]}
                 self.finish()
 
+        def check_stalled(self, now, ticks):
+            """Second (and last) wall-clock verdict, with the same generous bound and the same ticker
+            evidence: both sides are connected, nobody has been told connectionLost, no side ever
+            paused or plans to pause reading (kinds a, b, c, e, f only), some side has issued all its
+            writes and the peer has not received all of them - and NOTHING at all has moved on the
+            connection (bytes received, bytes issued, notifications) for 20 s and >= 40 reactor ticks."""
+            if self.finished or self.failed or self.spec["kind"] not in "abcef":
+                return
+            ss = list(self.sides.values())
+            if any(x.lost or not x.made or x.pauses or x.n_pauses or x.aborted for x in ss):
+                return
+            owed = [(x.role, x.sent_len() - y.rx) for x, y in (ss, ss[::-1]) if x.ops_done and y.rx < x.sent_len()]
+            if not owed:
+                self.stall_since = None
+                return
+            sig = tuple((x.rx, x.out_pos, x.ops_done, x.closing, len(getattr(x, "halves", ()))) for x in ss)
+            if self.stall_since is None or self.stall_since[2] != sig:
+                self.stall_since = (now, ticks, sig)
+            elif now - self.stall_since[0] >= NEVER_LOST_BOUND_S and ticks - self.stall_since[1] >= NEVER_LOST_MIN_TICKS:
+                self.stalled = {"owed": owed, "waited_s": round(now - self.stall_since[0], 1), "reactor_ticks_meanwhile": ticks - self.stall_since[1]}
+                self.finish()
+
         def report(self, stuck=False):
-            return {"id": self.spec["id"], "finished": self.finished and not stuck, "failed": self.failed, "never_lost": self.never_lost, "spurious": self.spurious, "h_unordered": self.h_unordered,
+            return {"id": self.spec["id"], "finished": self.finished and not stuck, "failed": self.failed, "never_lost": self.never_lost, "stalled": self.stalled, "spurious": self.spurious, "h_unordered": self.h_unordered,
                     "client": self.sides["client"].report(), "server": self.sides["server"].report()}
 
     def pump():
@@ -505,6 +533,7 @@ def scenario(reactor, inp):
         now = time.monotonic()
         for c in list(conns.values()):
             c.check_never_lost(now, ticks["n"])
+            c.check_stalled(now, ticks["n"])
         if not out:
             reactor.callLater(0.25, tick)
 
@@ -820,6 +849,14 @@ def judge(ctx, name, batch, out):
             ctx.violation("connectionlost-never-called", "the exchange was complete (the peer received every byte and got its connectionLost) and the reactor "
                           "kept iterating, but this side's connectionLost had not been called %.0f s later" % NEVER_LOST_BOUND_S,
                           {"reactor": name, "spec": spec, "never_lost": nl, "client": rep["client"], "server": rep["server"]})
+            continue
+        if rep.get("stalled"):
+            ctx.count("conns_decided")
+            ctx.count("decided_" + name)
+            ctx.evaluated()
+            ctx.violation("written-bytes-never-delivered", "both sides are connected and reading, one side has issued all its writes, the peer has not received all "
+                          "of them, and nothing moved on the connection for %.0f s while the reactor kept iterating" % NEVER_LOST_BOUND_S,
+                          {"reactor": name, "spec": spec, "stalled": rep["stalled"], "client": rep["client"], "server": rep["server"]})
             continue
         if not rep["finished"]:
             ctx.count("conns_unfinished")
